@@ -53,6 +53,13 @@ type SliceV struct{ A []SliceAlt }
 type StrV struct {
 	B   []*Term
 	Len *Term
+	Tok *tokInfo // numeric-token view used by the strconv stubs (nil: none)
+}
+
+// tokInfo: what strconv makes of the string (harness-declared tokens).
+type tokInfo struct {
+	IntOK, FloatOK *Term
+	IntVal, FloatBits *Term
 }
 
 type MapAlt struct {
@@ -576,6 +583,10 @@ func mergeV(c *Term, a, b Value) Value {
 			n = len(y.B)
 		}
 		out := &StrV{Len: Ite(c, x.Len, y.Len), B: make([]*Term, n)}
+		if x.Tok != nil && y.Tok != nil {
+			out.Tok = &tokInfo{IntOK: Ite(c, x.Tok.IntOK, y.Tok.IntOK), FloatOK: Ite(c, x.Tok.FloatOK, y.Tok.FloatOK),
+				IntVal: Ite(c, x.Tok.IntVal, y.Tok.IntVal), FloatBits: Ite(c, x.Tok.FloatBits, y.Tok.FloatBits)}
+		}
 		for i := 0; i < n; i++ {
 			xa, ya := BVu(0, 8), BVu(0, 8)
 			if i < len(x.B) {
